@@ -204,6 +204,10 @@ class Ctx:
         for cr in crashes:
             cr["stream"], cr["variant"] = name, variant
             self.crashes.append(cr)
+        for op, ln in zip(ops, c):
+            if ln and " CONVIN:" in ln:
+                self.S("the IDN converter was asked about something else than the domain part of the address (the limits and rules apply to the whole domain as given)",
+                       op=op, variant=variant, impl=ln, converter_input=ln.split(" CONVIN:")[1][:120])
         return c, l
 
     def K(self, name, variant, ops, project=None, nontrivial=None):
@@ -363,6 +367,8 @@ def c02(ctx):
             if (cl == "L 0") != (sl == "sL 1"):
                 ctx.S("mode %d local part decided against the grammar word *(\".\" word)" % m, op="L %d %s %s" % (m, hx(s), hx(gen.AT)),
                       input=repr(s), impl=cl, spec=sl)
+            elif cl.startswith("L ") and not cl.endswith("FAULT") and int(cl[2:]) > 0:
+                ctx.S("is_%d_local returns a positive code (callers read a positive code as a TLD class)" % m, op="L %d %s %s" % (m, hx(s), hx(gen.AT)), input=repr(s), impl=cl)
     # the same local parts through the high-level API, one eav_t switched through the three modes (both orders)
     sample = [s for s in strs if 0 < len(s) <= 64 and 0 not in s and b"@" not in s][:: (150 if ctx.tier == "quick" else 15)]
     direct = {}
@@ -404,6 +410,17 @@ def c03(ctx):
             continue
         if (cl == "L 0") != (sl == "sL 1"):
             ctx.S("mode 6531 local part decided against strict UTF-8 + the RFC 5321 grammar", op="L 6531 %s %s" % (hx(s), hx(gen.AT)), input=repr(s), impl=cl, spec=sl)
+        elif cl.startswith("L ") and not cl.endswith("FAULT") and int(cl[2:]) > 0:
+            ctx.S("is_6531_local returns a positive code (callers read a positive code as a TLD class: the address would be accepted)",
+                  op="L 6531 %s %s" % (hx(s), hx(gen.AT)), input=repr(s), impl=cl)
+    # the same decision seen through is_6531_email: L@b.com is accepted exactly when L is a valid local part of at most 64 octets
+    sub = [s for s in strs[:: (9 if ctx.tier == "quick" else 2)] if 0 not in s and b"@" not in s]
+    ce = ctx.K("email6531", "default", ["E 6531 0 %s" % hx(s + b"@b.com") for s in sub], nontrivial=lambda op, ln: True)
+    spd = dict(zip(strs, sp))
+    for s, cl in zip(sub, ce):
+        want = spd[s] == "sL 1" and 1 <= len(s) <= 64
+        if (fields(cl)[1] == "0") != want:
+            ctx.S("is_6531_email decides L@b.com against strict UTF-8 + the RFC 5321 grammar for L", op="E 6531 0 %s" % hx(s + b"@b.com"), input=repr(s), impl=cl, spec=spd[s])
     # the byte at *end must not take part: characters cut short at `end`, with a continuation byte right behind
     cut = []
     for ch in ("é", "№", "😀", "Ж", "中"):
@@ -464,6 +481,11 @@ def c04(ctx):
     for total in range(250, 258):
         d = (b"a" * 49 + b".") * 5
         idn += [d + b"b" * (total - len(d)), d + b"b" * (total - len(d)) + b"."]
+    # longer than the limit, with a dot right after a valid prefix of 250..254 octets (a silently truncated copy would pass)
+    for pre in range(250, 256):
+        h = gen.long_host(pre)
+        for tail in (b".com", b".c", b"..", b".-", b".!", b"." + b"b" * 40 + b".com", b".", "。com".encode()):
+            idn += [h + tail, ("é" + h[1:].decode() + tail.decode(errors="ignore")).encode() if pre < 254 else h + tail]
     idn = list(dict.fromkeys(idn))
     ops = ["U 0 %s" % hx(s) for s in idn if s and 0 not in s]
     c, l = ctx.run("utf8domain", "default", ops)
@@ -663,6 +685,12 @@ def c08(ctx):
     # real addresses: literals are not subject to the policy; tld_check off ignores mask, TLD and FQDN
     addrs = [b"a@b.com", b"a@b.ru", b"a@nic.aero", b"a@x.arpa", b"a@x.test", b"a@x.abarth", b"a@example.com", b"a@localhost", b"a@b", b"a@b.zz",
              b"a@[1.2.3.4]", b"a@[IPv6:::1]", "a@почта.рф".encode(), b"a@x.xn--p1ai", b"a@x.biz", b"a@x.edu", b"a@x.xn--kgbechtv"]
+    # unlisted last labels, among them proper prefixes and one-letter extensions of listed ones: refused whatever the mask
+    tbln = [r[0] for r in table_names(ctx)]
+    unl = [b"or", b"comm", b"googl", b"museu", b"arp", b"nam", b"z", b"G", b"zz", b"co-m"] + [n[:-1] for n in tbln[::120] if len(n) > 2] + [n + b"x" for n in tbln[::150]]
+    unl = [u for u in dict.fromkeys(unl) if u.lower() not in set(tbln) and u.lower() not in (b"test", b"example", b"invalid", b"localhost", b"onion")]
+    unl_addrs = [b"a@mail." + u for u in unl]
+    addrs = addrs + unl_addrs
     masks = range(0, 2048, 1 if ctx.tier != "quick" else 37)
     for m in MODES:
         res = {}
@@ -677,6 +705,8 @@ def c08(ctx):
                 k = int(k)
                 if t == 1 and 1 <= rc <= 9 and (f[1] == "1") != bool(k & (1 << (rc + 1))):
                     ctx.S("address accepted/refused against its class bit", op=op, impl=cl)
+                if t == 1 and bytes.fromhex(a) in unl_addrs and f[2] != "2" and (f[1] != "0" or f[2] != "26"):
+                    ctx.S("an unlisted TLD is not refused as an invalid TLD (whatever the mask)", op=op, impl=cl)
         for (t, a), outs in res.items():
             if t == 0 and len(outs) != 1:
                 ctx.S("with tld_check off the outcome depends on allow_tld", op="P %d 0 * %s" % (m, a), outcomes=sorted(x[1] for x in outs)[:4])
@@ -1044,17 +1074,101 @@ def check_histories(ctx, name, scripts, variant="default"):
     return c
 
 
+def interleavings(a, b, rng, limit):
+    """interleavings of the op lists a (object 1) and b (object 2, ops prefixed with `2`), each keeping its own order: all of them when there are
+    at most `limit`, a random sample otherwise"""
+    import math
+    total = math.comb(len(a) + len(b), len(a))
+    out = set()
+    if total <= limit:
+        def rec(i, j, cur):
+            if i == len(a) and j == len(b):
+                out.add(";".join(cur)); return
+            if i < len(a): rec(i + 1, j, cur + [a[i]])
+            if j < len(b): rec(i, j + 1, cur + ["2" + b[j]])
+        rec(0, 0, [])
+    else:
+        while len(out) < limit:
+            i = j = 0; cur = []
+            while i < len(a) or j < len(b):
+                if j >= len(b) or (i < len(a) and rng.random() < len(a[i:]) / (len(a[i:]) + len(b[j:]))):
+                    cur.append(a[i]); i += 1
+                else:
+                    cur.append("2" + b[j]); j += 1
+            out.add(";".join(cur))
+    return sorted(out)
+
+
+def check_two_objects(ctx, name, scripts, variant="default"):
+    """two eav_t objects used in one interleaved history: every call must give what it gives when its object is used alone"""
+    proj = {}
+    for sc in scripts:
+        ops = sc.split(";")
+        proj[sc] = (";".join(o for o in ops if not o.startswith("2")), ";".join(o[1:] for o in ops if o.startswith("2")))
+    singles = sorted({p for pr in proj.values() for p in pr if p})
+    cs = dict(zip(singles, ctx.K(name + "-alone", variant, ["H " + p for p in singles], nontrivial=lambda op, ln: True)))
+    ci = ctx.K(name, variant, ["H " + sc for sc in scripts], nontrivial=lambda op, ln: True)
+    for sc, ln in zip(scripts, ci):
+        ops = sc.split(";")
+        body = ln[2:]
+        counters = None
+        m = re.search(r";R(\d+),(\d+),(-?\d+),(\d+)$", body)
+        if m:
+            counters = tuple(map(int, m.groups())); body = body[:m.start()]
+        got = body.split(";")
+        pa, pb = proj[sc]
+        exp_a = re.sub(r";R[-\d,]+$", "", cs[pa][2:]).split(";") if pa else []
+        exp_b = re.sub(r";R[-\d,]+$", "", cs[pb][2:]).split(";") if pb else []
+        ia = ib = 0
+        for k, o in enumerate(ops):
+            want = None
+            if o.startswith("2"):
+                want = exp_b[ib] if ib < len(exp_b) else None; ib += 1
+            else:
+                want = exp_a[ia] if ia < len(exp_a) else None; ia += 1
+            g = got[k] if k < len(got) else "?"
+            if want is not None and g != want:
+                ctx.S("with two eav_t objects in use, a call on one of them gives something else than when that object is used alone",
+                      op="H " + sc, variant=variant, step=k, call=o, got=g, alone=want)
+                break
+        if counters is not None:
+            created, destroyed, live, bad = counters
+            if live != 0 or bad != 0 or created != destroyed:
+                ctx.S("idnkit: idn_resconf contexts created %d, destroyed %d, live %d, bad destroys %d after both objects were freed" % counters,
+                      op="H " + sc, variant=variant, impl=ln)
+    return ci
+
+
+def two_object_scripts(ctx, idn_addr):
+    a = hx(idn_addr); p = hx(b"a@b.com")
+    seqs = [(["i", "s", "e" + a, "r822", "s", "e" + p, "f"], ["i", "s", "e" + a, "m", "e" + a, "f"]),
+            (["i", "s", "r5321", "s", "r6531", "s", "e" + a, "f"], ["i", "s", "e" + a, "f", "i", "r822", "s", "e" + p, "f"]),
+            (["i", "r5322", "s", "e" + p, "r6531", "s", "e" + a, "f"], ["i", "s", "e" + a, "r7", "s", "m", "e" + a, "f"])]
+    out = []
+    for x, y in seqs:
+        out += interleavings(x, y, ctx.rng, 400 if ctx.tier == "quick" else 3000)
+    return list(dict.fromkeys(out))
+
+
 def c13(ctx):
     hg = HistGen(ctx.rng)
-    pool = ["r822", "r5321", "r6531", "r7", "t0", "k8", "s", "m", "fi"] + ["e" + hx(a) for a in (H_ADDRS[0], H_ADDRS[8], H_ADDRS[3], H_ADDRS[4], H_ADDRS[13])]
+    pool = ["r822", "r5321", "r6531", "r7", "t0", "k8", "s", "m", "fi"] + ["e" + hx(a) for a in (H_ADDRS[0], H_ADDRS[8], H_ADDRS[3], H_ADDRS[4], H_ADDRS[13], b"", b"a@[1.2.3.4]")]
     scripts = hg.exhaustive(3 if ctx.tier == "quick" else 4, pool)
     if ctx.tier != "quick":
         scripts = scripts[:: 2]
     for n in ([10, 50, 200] if ctx.tier == "quick" else [10, 50, 200, 200, 1000]):
         for _ in range(40 if ctx.tier == "quick" else 400):
-            scripts.append(hg.random_history(n, H_ADDRS))
+            scripts.append(hg.random_history(n, H_ADDRS + [b"", b"@", b"a@"]))
+    # every kind of outcome followed by the empty address and by addresses of the other kinds: each call's record is its own
+    kinds = [b"a@b.com", b"a@[1.2.3.4]", b"a@[IPv6:::1]", "ж@почта.рф".encode(), b"a@\xff.com", b"a@x.test", b"bad", b"", b"a@b.zz"]
+    for m in MODES:
+        for a in kinds:
+            for b in kinds:
+                scripts.append("i;r%d;s;e%s;e%s;m;e%s;f" % (m, hx(a), hx(b), hx(a)))
     scripts = list(dict.fromkeys(scripts))
     check_histories(ctx, "history", scripts)
+    # two objects side by side: nothing one of them does is visible through the other
+    check_two_objects(ctx, "two-objects", two_object_scripts(ctx, "ж@почта.рф".encode()))
 RULES["C13"] = "distinct legal call histories (init first, is_email only after a successful setup, free last): exhaustive sequences of 3 (4 thorough) operations from a pool of 13 after init+setup, random histories of length 10-200 (1000 thorough); every eav_is_email compared with a fresh object given the same settings; LeakSanitizer at exit"
 
 
@@ -1189,6 +1303,8 @@ RULES["C17"] = "distinct (build, op) pairs; each non-default build compared op b
 def c18(ctx):
     bes = ["be:idn2", "be:idn", "be:idnkit"]
     mails = diag_corpus(ctx)[:: (2 if ctx.tier == "quick" else 1)]
+    mails += [b"a@" + d for d in idn_domains(ctx)[:: (3 if ctx.tier == "quick" else 1)] if 0 not in d and b"@" not in d]
+    mails = list(dict.fromkeys(mails))
     hg = HistGen(ctx.rng)
     scripts = hg.exhaustive(2 if ctx.tier == "quick" else 3, ["r822", "r6531", "r7", "s", "m", "fi", "t0"] + ["e" + hx(a) for a in H_ADDRS[:4]])
     for n in (10, 50, 200):
@@ -1212,6 +1328,9 @@ def c18(ctx):
                         ctx.S("back end %s: a call history gives different outcomes than with libidn2" % be[3:], op="H " + scripts[i], variant=be, idn2=a, other=b0)
                 elif a != b:
                     ctx.S("back end %s decides an address differently than the libidn2 build" % be[3:], op="P %d %d 760 %s" % (key[0], key[1], hx(mails[i])), variant=be, idn2=a, other=b)
+    # two objects side by side in each back end (a context shared between objects would be released under the other's feet)
+    for be in bes:
+        check_two_objects(ctx, "two-objects", two_object_scripts(ctx, "ж@почта.рф".encode()), variant=be)
     # idnkit: every context created by eav_setup is destroyed exactly once (scripts end with eav_free)
     for sc, ln in zip(scripts, out["be:idnkit"]["H"]):
         m = re.search(r";R(\d+),(\d+),(-?\d+),(\d+)$", ln)
@@ -1260,6 +1379,10 @@ def idn_domains(ctx):
                 lab += rng.choice(["-", "1", "a", "-x"])
             labs.append(lab)
         out.append(".".join(labs).encode())
+    # U-labels in front of reserved names and of ordinary TLDs of every class
+    for u in ("почта", "例え", "ελ", "münchen"):
+        for r in ("localhost", "test", "example", "invalid", "onion", "example.com", "example.net", "example.org", "EXAMPLE.COM", "com", "ru", "museum", "arpa", "zz"):
+            out += [(u + "." + r).encode(), ("a." + u + "." + r).encode(), (u + "." + u + "." + r).encode()]
     # long in UTF-8, short as A-labels: labels of one repeated character (the limits 63 / 253 apply to the A-form)
     for a_, b_ in (("中", "国"), ("ж", "я"), ("한", "국"), ("α", "ω"), ("é", "ü")):
         for n1 in (20, 40, 50):
@@ -1425,6 +1548,25 @@ def c11(ctx):
         rc = int(fields(cl)[1])
         if not (1 <= rc <= 9):
             ctx.S("a domain of data/tld-domains.txt is not classified by the library", op="E 6531 1 %s" % hx(b"a@" + x), impl=cl)
+    # every row once more behind a long host name, in table order, with unlisted labels of the same length in between, through
+    # the whole validation path of modes 6531 and 5321 (a lookup must not depend on the previous one)
+    host = b"a" * 35 + b"." + b"b" * 34
+    seq = []
+    for r in tbl:
+        seq.append(r[0])
+        if len(seq) % 3 == 0:
+            seq.append((b"q" * len(r[0]))[:len(r[0])] if len(r[0]) > 1 else b"q")
+    seq = [x for x in seq]
+    spq = ctx.spec(["sT %s" % hx(x) for x in seq])
+    for m in (6531, 5321):
+        cq = ctx.K("rows-long-host%d" % m, "default", ["E %d 1 %s" % (m, hx(b"a@" + host + b"." + x)) for x in seq], nontrivial=lambda op, ln: True)
+        for x, cl, sl in zip(seq, cq, spq):
+            f = fields(cl)
+            if f[1] == "-2":
+                continue
+            if f[1] != sl.split(" ")[1]:
+                ctx.S("behind a long host name, a TLD is not found with the class data/punycode.csv gives it (or an unlisted one is found)",
+                      op="E %d 1 %s" % (m, hx(b"a@" + host + b"." + x)), label=repr(x), impl=cl, csv=sl)
 RULES["C11"] = "lines of the three regenerated files compared with the shipped ones, all 1591 rows looked up in lower and upper case, every domain of tld-domains.txt validated in mode 6531"
 TRUSTED_EXTRA["C11"] = ["the Perl interpreter and shims/perl/Text/CSV.pm (40-line stand-in for Text::CSV, which is not installed) for the run of the two generator programs; that run is a test of the generators, the theorems are about their artefacts"]
 
@@ -1494,6 +1636,9 @@ def c06(ctx):
         ctx.K("domain", v, ["D %s 00" % hx(s) for s in dom if 0 not in s])
         ctx.K("special", v, ["S %s" % hx(s) for s in dom[::2] if 0 not in s])
         ctx.K("tld", v, ["T %s" % hx(s) for s in dom[::5] if 0 not in s])
+        # the two address parsers themselves: octet values that wrap in 32/64-bit arithmetic, long digit runs, every IPv6 shape
+        ctx.K("ipv4", v, ["4 %s %s" % (hx(a), hx(b"]\0")) for a in gen.ipv4_strings("quick", rng)[:: (2 if ctx.tier == "quick" else 1)] if 0 not in a])
+        ctx.K("ipv6", v, ["6 %s %s" % (hx(a), hx(b"]\0")) for a in gen.ipv6_shapes("quick", rng)[:: (4 if ctx.tier == "quick" else 1)] if 0 not in a])
         # reserved-name shapes: labels of every length 1..12 and 62/63 in the last two positions (the label copies of is_special_domain)
         spd = [s for s in gen.special_domains("quick", rng)[:: (3 if ctx.tier == "quick" else 1)] if 0 not in s]
         ctx.K("special-shapes", v, ["S %s" % hx(s) for s in spd])
@@ -1617,6 +1762,16 @@ def c20(ctx):
             for final in (True, False):
                 files.append(sh + (term if final else b""))
                 files.append(b"first@ok.com" + term + sh + (term if final else b""))
+    # line lengths around the powers of two, as the LAST line with and without a terminator, after nothing, after a short line and after a
+    # long one (a reader that grows a buffer by doubling has its seams exactly there)
+    for L in (62, 63, 64, 126, 127, 128, 254, 255, 256, 257, 510, 511, 512, 1022, 1023, 1024, 2046, 2047, 2048, 4095, 4096, 8191, 8192, 16383):
+        dom = gen.long_host(min(L - 2, 200)) if L > 12 else b"b.com"
+        line = (b"a@" + dom + b"x" * L)[:L]
+        valid = b"a" * min(60, max(1, L - 2 - len(dom))) + b"@" + dom
+        for body in (line, (valid + b" " * L)[:L]):
+            for pre in (b"", b"first@ok.com\n", b"a@" + b"b" * 300 + b".com\n", b"x" * 5000 + b"\n"):
+                for term in (b"", b"\n", b"\r\n"):
+                    files.append(pre + body + term)
     n = 60 if ctx.tier == "quick" else 600
     for _ in range(n):
         lines = []
